@@ -27,25 +27,28 @@ AMBIENT = {
 COMMUTATIVE_CALLS = {"add", "discard", "update", "any", "all", "min", "max", "sum", "len", "set", "frozenset", "issubset"}
 
 
+def is_set_expr(v, known):
+    if isinstance(v, (ast.Set, ast.SetComp)):
+        return True
+    if isinstance(v, ast.Call):
+        n = U(v.func)
+        if n in ("set", "frozenset"):
+            return True
+        if isinstance(v.func, ast.Attribute) and v.func.attr in ("union", "intersection", "difference", "symmetric_difference", "copy") \
+                and (U(v.func.value) in known or is_set_expr(v.func.value, known)):
+            return True
+    if isinstance(v, ast.BinOp) and isinstance(v.op, (ast.BitOr, ast.BitAnd, ast.Sub, ast.BitXor)):
+        return U(v.left) in known or U(v.right) in known or is_set_expr(v.left, known) or is_set_expr(v.right, known)
+    if isinstance(v, ast.IfExp):
+        return is_set_expr(v.body, known) or is_set_expr(v.orelse, known)
+    if isinstance(v, (ast.Name, ast.Attribute)) and U(v) in known:
+        return True
+    return False
+
+
 def set_typed_names(fn):
     """Names/attributes bound (anywhere in fn) to a set-valued expression."""
     out = {}
-
-    def is_set_expr(v, known):
-        if isinstance(v, (ast.Set, ast.SetComp)):
-            return True
-        if isinstance(v, ast.Call):
-            n = U(v.func)
-            if n in ("set", "frozenset"):
-                return True
-            if isinstance(v.func, ast.Attribute) and v.func.attr in ("union", "intersection", "difference", "symmetric_difference", "copy") \
-                    and U(v.func.value) in known:
-                return True
-        if isinstance(v, ast.BinOp) and isinstance(v.op, (ast.BitOr, ast.BitAnd, ast.Sub, ast.BitXor)):
-            return U(v.left) in known or U(v.right) in known or is_set_expr(v.left, known) or is_set_expr(v.right, known)
-        if isinstance(v, (ast.Name, ast.Attribute)) and U(v) in known:
-            return True
-        return False
 
     changed = True
     while changed:
@@ -56,7 +59,7 @@ def set_typed_names(fn):
                 tgts, val = st.targets, st.value
             elif isinstance(st, ast.AnnAssign) and st.value is not None:
                 tgts, val = [st.target], st.value
-            elif isinstance(st, ast.AugAssign):
+            elif isinstance(st, ast.AugAssign) and isinstance(st.op, (ast.BitOr, ast.BitAnd, ast.Sub, ast.BitXor)):
                 tgts, val = [st.target], st.value
             for t in tgts:
                 if isinstance(t, (ast.Name, ast.Attribute)) and U(t) not in out and is_set_expr(val, out):
@@ -79,15 +82,19 @@ def class_set_attrs(prog: Program):
 def lint_unordered(fn, known, report, report_ok=None):
     """Flag order-sensitive consumption of set-typed values inside fn."""
     def is_set(e):
-        if isinstance(e, (ast.Set, ast.SetComp)):
-            return True
-        if isinstance(e, ast.Call) and U(e.func) in ("set", "frozenset"):
-            return True
         if isinstance(e, ast.Call) and isinstance(e.func, ast.Attribute) and e.func.attr in ("keys", "values", "items"):
             return False
-        return U(e) in known
+        return is_set_expr(e, known)
 
     for n in walk_no_defs(fn):
+        if isinstance(n, ast.AugAssign) and isinstance(n.op, ast.Add) and is_set(n.value) and U(n.target) not in known:
+            report(n, f"{U(n.target)} += <set>: the elements of {U(n.value)[:40]!r} are appended in an arbitrary order")
+        if isinstance(n, ast.Call) and isinstance(n.func, ast.Attribute) and n.func.attr in ("extend", "writelines") and n.args and is_set(n.args[0]):
+            report(n, f"{U(n.func)}(<set>): the elements of {U(n.args[0])[:40]!r} are taken in an arbitrary order")
+        if isinstance(n, ast.Starred) and is_set(n.value) and isinstance(parent(n), (ast.List, ast.Tuple, ast.Call)):
+            pp = parent(n)
+            if not (isinstance(pp, ast.Call) and U(pp.func) in ("set", "frozenset", "sorted", "max", "min", "sum", "len")):
+                report(n, f"*{U(n.value)[:40]} unpacks a set in an arbitrary order")
         if isinstance(n, ast.For) and is_set(n.iter):
             if not commutative_body(n.body, U(n.target)):
                 report(n, f"for-loop over the set {U(n.iter)!r} with an order-sensitive body")
@@ -418,10 +425,32 @@ def mutations_of(fn, name, attr_ok=False):
                   for s in iter_stmts(fn.body))
     params = {a.arg for a in fn.args.args + fn.args.kwonlyargs}
 
+    aliases = set()
+
     def is_obj(e):
-        if isinstance(e, ast.Name) and e.id == name:
+        if isinstance(e, ast.Name) and (e.id == name or e.id in aliases):
             return True
+        if isinstance(e, ast.Attribute) and e.attr == name and isinstance(e.value, ast.Name) and not attr_ok:
+            return e.value.id not in ("self", "cls")  # module.NAME
         return attr_ok and isinstance(e, ast.Attribute) and e.attr == name
+
+    def may_be_obj(e):
+        if isinstance(e, ast.IfExp):
+            return may_be_obj(e.body) or may_be_obj(e.orelse)
+        if isinstance(e, ast.BoolOp):
+            return any(may_be_obj(v) for v in e.values)
+        return is_obj(e)
+
+    # local names bound to the very object (not to a copy of it)
+    changed = True
+    while changed:
+        changed = False
+        for s_ in iter_stmts(fn.body):
+            if isinstance(s_, ast.Assign) and may_be_obj(s_.value):
+                for t_ in s_.targets:
+                    if isinstance(t_, ast.Name) and t_.id != name and t_.id not in aliases:
+                        aliases.add(t_.id)
+                        changed = True
 
     for n in walk_no_defs(fn):
         if isinstance(n, ast.Call) and isinstance(n.func, ast.Attribute) and n.func.attr in MUTATORS and is_obj(n.func.value):
@@ -455,5 +484,12 @@ def controls(rep):
     want = {"R1c": "unordered|", "R2c": "ambient|", "R3c": "shared|", "R4c": "default|", "R5c": "memo|", "R6c": "dynamic|"}
     for r in crep.rules:
         fired = [o for o in r.obs if not o.ok and o.key.startswith(want[r.rid])]
+        if r.rid == "R3c":
+            al = [o for o in r.obs if not o.ok and "REGISTRY" in o.key]
+            rc.add("control|R3-alias", bool(al), f"lint R3 {'flags' if al else 'MISSES'} a mutation made through a local alias of the shared object",
+                   "controls/c11/pdb2pqr/control.py")
+        if r.rid == "R1c":
+            al = [o for o in r.obs if not o.ok and "list_extended_by_set" in o.key]
+            rc.add("control|R1-list+=set", bool(al), f"lint R1 {'flags' if al else 'MISSES'} a list extended by a set", "controls/c11/pdb2pqr/control.py")
         rc.add(f"control|{r.rid[:-1]}", bool(fired), f"lint {r.rid[:-1]} {'flags' if fired else 'MISSES'} its control example "
                f"({fired[0].key if fired else 'no report'})", "controls/c11/pdb2pqr/control.py")
